@@ -154,6 +154,9 @@ class BaseHandler:
             # listing of the real directory.
             and not self.selector.endswith("/.")
             and self.selector != "."
+            # Likewise a slash still there after normalisation ("/dir//"
+            # arrives here as "/dir/"): a doubled separator, to be refused.
+            and not (len(self.selector) > 1 and self.selector.endswith("/"))
         )
 
     def canhandlerequest(self) -> bool:
